@@ -3,16 +3,19 @@ import bv  # noqa: F401
 from bacpypes.app import Application, ApplicationIOController
 from bacpypes.appservice import StateMachineAccessPoint, ApplicationServiceAccessPoint
 from bacpypes.netservice import NetworkServiceAccessPoint, NetworkServiceElement
-from bacpypes.bvllservice import BIPSimple, AnnexJCodec
+from bacpypes.bvllservice import BIPSimple, BIPForeign, AnnexJCodec
 from bacpypes.comm import Client, Server, bind
 from bacpypes.pdu import Address, LocalBroadcast, PDU, unpack_ip_addr
 from bacpypes.vlan import Node, IPNode, Network
 from bacpypes.local.device import LocalDeviceObject
 from bacpypes.object import AnalogValueObject, BinaryValueObject, WritableProperty, register_object_type
 from bacpypes.primitivedata import Real
+from bacpypes.basetypes import DateTime
 from bacpypes.service.device import WhoIsIAmServices, DeviceCommunicationControlServices
 from bacpypes.service.object import ReadWritePropertyServices, ReadWritePropertyMultipleServices
 from bacpypes.service.cov import ChangeOfValueServices
+from bacpypes.service.file import FileServices
+from bacpypes.local.file import LocalStreamAccessFileObject
 from bacpypes import core as _core
 
 from bv.engine import vclock
@@ -35,8 +38,30 @@ class _QuietNSE(NetworkServiceElement):
 
 
 class DevApp(ApplicationIOController, WhoIsIAmServices, ReadWritePropertyServices, ReadWritePropertyMultipleServices,
-             ChangeOfValueServices, DeviceCommunicationControlServices):
+             ChangeOfValueServices, DeviceCommunicationControlServices, FileServices):
     pass
+
+
+@register_object_type(vendor_id=999)
+class MemoryFile(LocalStreamAccessFileObject):
+    """A stream file kept in memory (the library leaves the storage to the application)."""
+
+    def __init__(self, **kwargs):
+        LocalStreamAccessFileObject.__init__(self, **kwargs)
+        self._data = bytearray(b"Hello, file!")
+
+    def __len__(self):
+        return len(self._data)
+
+    def read_stream(self, start_position, octet_count):
+        end = start_position + octet_count
+        return end >= len(self._data), bytes(self._data[start_position:end])
+
+    def write_stream(self, start_position, data):
+        if start_position < 0:
+            start_position = len(self._data)
+        self._data[start_position:start_position + len(data)] = data
+        return start_position
 
 
 @register_object_type(vendor_id=999)
@@ -84,6 +109,10 @@ class Device(object):
         self.app, self.av, self.bv = self._stack(1, DEVICE_MAC, DEVICE_IP)
         self.twin = self._stack(2, TWIN_MAC, TWIN_IP)[0] if twin else None
         vclock.settle()
+        if level in ("ipf:acked", "ipf:nak"):
+            # the BBMD answers the registration: BVLC-Result success / NAK
+            result = bytes([0x81, 0x00, 0x00, 0x06, 0x00, 0x00 if level == "ipf:acked" else 0x30])
+            self.inject(result, other=True)
         self.baseline_tasks = len(vclock.pending_tasks())
 
     def _stack(self, instance, mac, ip):
@@ -104,7 +133,11 @@ class Device(object):
             app.nsap.bind(app._node)
         else:
             addr = Address(ip)
-            app._bip = BIPSimple()
+            if level.startswith("ipf"):
+                # the device is a foreign device of a BBMD played by the second tester station
+                app._bip = BIPForeign(Address(TESTER2_TUPLE[0]), 30)
+            else:
+                app._bip = BIPSimple()
             app._annexj = AnnexJCodec()
             app._mux = FauxMux(addr, self.net)
             bind(app._bip, app._annexj, app._mux)
@@ -116,6 +149,8 @@ class Device(object):
                                 statusFlags=[0, 0, 0, 0])
         app.add_object(av)
         app.add_object(bvo)
+        app.add_object(MemoryFile(objectIdentifier=("file", 1), objectName="file1", fileType="text",
+                                  modificationDate=DateTime(date=(126, 9, 26, 6), time=(12, 0, 0, 0)), archive=False, readOnly=False))
         return app, av, bvo
 
     def inject(self, octets, settle=True, other=False, twin=False):
